@@ -362,6 +362,9 @@ def measure_rule(ctx):
 
 
 def run(ctx):
+    from ..shared import group_loop_rule as _group_loop_rule
+
+    _group_loop_rule(ctx, "R8.12", scope=lambda f, _s=("EasyFEA.FEM._mesh", "EasyFEA.FEM._group_elem"): f.module.name.startswith(_s), min_instances=5)
     from ..shared import state_alias_rule as _state_alias_rule
 
     _state_alias_rule(ctx, "R8.11", scope=lambda f, _s=("EasyFEA.FEM._group_elem", "EasyFEA.FEM._mesh"): f.module.name.startswith(_s), min_instances=50)
